@@ -255,7 +255,9 @@ func genCorpus(seed uint64, size int) *proto.Corpus {
 		{"Apache-2.0", "apache-2.0", "Apache-2.0+", "Apache-2.0-or-later", "Apache-2.0-only", "Apache-1.0+"},
 		{"GPL-2.0", "GPL-2.0+", "GPL-2.0-or-later", "GPL-2.0-only", "gpl-2.0-ONLY", "GPL-3.0", "GPL-2.0 WITH Bison-exception-2.2", "GPL-2.0+ WITH Bison-exception-2.2"},
 		{"MIT AND Apache-2.0", "Apache-2.0 AND MIT", "MIT  AND  Apache-2.0", "mit and apache-2.0", "MIT AND Apache-2.0 ", "MIT OR Apache-2.0", "MIT AND (Apache-2.0)"},
-		{"LicenseRef-a", "LicenseRef-A", "DocumentRef-d:LicenseRef-a", "DocumentRef-D:LicenseRef-a", "LicenseRef-a AND MIT", "MIT OR LicenseRef-a"},
+		{"LicenseRef-a", "LicenseRef-A", "DocumentRef-d:LicenseRef-a", "DocumentRef-D:LicenseRef-a", "LicenseRef-a AND MIT", "MIT OR LicenseRef-a",
+			"LicenseRef-Foo AND LicenseRef-foo", "LicenseRef-foo AND LicenseRef-Foo", "LicenseRef-a AND LicenseRef-A AND LicenseRef-a",
+			"DocumentRef-Vendor:LicenseRef-terms AND DocumentRef-vendor:LicenseRef-terms AND MIT", "LicenseRef-b AND LicenseRef-B AND LicenseRef-c AND LicenseRef-C"},
 		{"(", "MIT WITH", "DocumentRef-a", "(LicenseRef-a OR LicenseRef-b) AND MIT OR ISC", ")", "MIT AND", "AND MIT", "MIT OR OR ISC", "(MIT", "MIT)", "()", "MIT ISC"},
 		{"", " ", "   ", "MIT +", "MIT WITH MIT", "NOPE-1.0", "MIT AND NOPE-1.0", "NOPE-1.0 AND MIT", "Apache-2.0-or-later AND FOO", "MIT ∧ ISC", "MIT\tISC", "\xff\xfe"},
 	}
@@ -331,6 +333,11 @@ func genCorpus(seed uint64, size int) *proto.Corpus {
 	// "parallelise when large" optimisation would use), satisfied through the first, a
 	// middle, the last alternative or not at all
 	g.wideFamilies()
+
+	// the range table, systematically: inside every licence group, questions between the
+	// lowest, a middle and the highest version with and without '+'. (Ids listed in two
+	// groups, thresholds after which another lookup structure is used, ...)
+	g.rangeFamilies()
 
 	// systematic spelling families: every way of writing one identifier (letter case of
 	// the id and of its -only / -or-later suffix, '+', WITH), through every function and
@@ -561,5 +568,32 @@ func (g *corpusGen) wideFamilies() {
 		g.add(proto.Call{Fn: proto.FnExtract, Expr: grid, Fam: g.fam, Tag: "wide"})
 		g.add(proto.Call{Fn: proto.FnValidate, List: ids, Fam: g.fam, Tag: "wide"})
 		_ = r
+	}
+}
+
+func (g *corpusGen) rangeFamilies() {
+	for _, grp := range spdxlicenses.LicenseRanges() {
+		var reps []string // one representative per version sub-group: first entry
+		for _, v := range grp {
+			if len(v) > 0 {
+				reps = append(reps, v[0])
+			}
+		}
+		if len(reps) < 2 {
+			continue
+		}
+		g.fam++
+		pick := []string{reps[0], reps[len(reps)/2], reps[len(reps)-1]}
+		for i, a := range pick {
+			for j, b := range pick {
+				if i == j {
+					continue
+				}
+				g.add(proto.Call{Fn: proto.FnSatisfies, Expr: a + "+", List: []string{b}, Fam: g.fam, Tag: "range"})
+				g.add(proto.Call{Fn: proto.FnSatisfies, Expr: a, List: []string{b + "+"}, Fam: g.fam, Tag: "range"})
+			}
+		}
+		g.add(proto.Call{Fn: proto.FnSatisfies, Expr: pick[0] + "+", List: []string{"MIT", pick[2]}, Fam: g.fam, Tag: "range"})
+		g.add(proto.Call{Fn: proto.FnSatisfies, Expr: "MIT OR " + pick[0] + "+", List: []string{pick[2]}, Fam: g.fam, Tag: "range"})
 	}
 }
